@@ -89,7 +89,8 @@ def run(ck: Check):
             probs.append(("energy", en, se))
         for m, u in usage.items():
             if w["size"].get(m):
-                if u * w["size"][m] != v["footprint"][m]:
+                # usage = footprint / size comes out of a float32 formula: exact only when the size is a power of two
+                if abs(u * w["size"][m] - v["footprint"][m]) > Fraction(1, 2 ** 21) * max(v["footprint"][m], 1):
                     probs.append(("usage:" + m, u * w["size"][m], Fraction(v["footprint"][m])))
         # against the real model
         if "exception" in r:
@@ -228,7 +229,8 @@ def replay(path):
         print("formula: latency %s energy %s usage %s" % (lat, en, usage))
         print("executed:", v.get("latency"), v.get("energy"), v.get("footprint"))
         if v.get("wellformed") and (Fraction(*v["latency"]) != lat or Fraction(*v["energy"]) != en or
-                                    any(w["size"].get(m) and u * w["size"][m] != v["footprint"][m] for m, u in usage.items())):
+                                    any(w["size"].get(m) and abs(u * w["size"][m] - v["footprint"][m]) > Fraction(1, 2 ** 21) * max(v["footprint"][m], 1)
+                                        for m, u in usage.items())):
             bad += 1
     if bad:
         print("VIOLATION property=C07 replay=%s" % path)
